@@ -82,3 +82,42 @@ Qed.
 
 Theorem echo_unchanged l : wf_utf8 l -> no_ctrl l -> sanitize l = l.
 Proof. intros Hw Hc. unfold sanitize. apply sanitize_fuel_echo; auto. Qed.
+
+(* ---- the output buffer of sanitize_utf8: length * 4 + 1 bytes are enough ---- *)
+Lemma utf8_next_consumes l v r : utf8_next l = Some (v, r) -> exists k, (1 <= k)%nat /\ length l = (k + length r)%nat.
+Proof.
+  unfold utf8_next. destruct l as [|b t]; [discriminate|].
+  destruct (code b <? 128). { intros H. inversion H; subst. exists 1%nat. cbn [length]. split; lia. }
+  destruct (is_lead2 (code b)).
+  { destruct t as [|c1 t1]; [discriminate|]. destruct (dec2 b c1); [|discriminate]. intros H. inversion H; subst. exists 2%nat. cbn [length]. split; lia. }
+  destruct (is_lead3 (code b)).
+  { destruct t as [|c1 [|c2 t2]]; try discriminate. destruct (dec3 b c1 c2); [|discriminate]. intros H. inversion H; subst. exists 3%nat. cbn [length]. split; lia. }
+  destruct (is_lead4 (code b)); [|discriminate].
+  destruct t as [|c1 [|c2 [|c3 t3]]]; try discriminate. destruct (dec4 b c1 c2 c3); [|discriminate]. intros H. inversion H; subst. exists 4%nat. cbn [length]. split; lia.
+Qed.
+
+Lemma sanitize_fuel_bound : forall fuel l, (length (sanitize_fuel fuel l) <= 4 * length l)%nat.
+Proof.
+  induction fuel as [|fuel IH]; intros l; [cbn; lia|].
+  cbn [sanitize_fuel]. destruct l as [|b t]; [cbn; lia|].
+  destruct (utf8_next (b :: t)) as [[v r']|] eqn:E.
+  - destruct (utf8_next_consumes _ _ _ E) as (k & Hk & Hl). specialize (IH r').
+    destruct ((v <? 32) || (v =? 127)); rewrite app_length.
+    + unfold esc. cbn [length] in *. lia.
+    + rewrite firstn_length. cbn [length] in *. lia.
+  - rewrite app_length. specialize (IH t). unfold esc. cbn [length] in *. lia.
+Qed.
+
+(* pos never exceeds 4 * length, so the terminator written at sanitized[pos] is inside the length * 4 + 1 bytes requested *)
+Theorem sanitize_fits l : (length (sanitize l) + 1 <= length l * 4 + 1)%nat.
+Proof. unfold sanitize. pose proof (sanitize_fuel_bound (S (length l)) l). lia. Qed.
+
+(* what is handed to the library is a contiguous part of the line: at most one leading space, the terminator and at most one trailing blank are cut *)
+Lemma drop_last_blank_prefix l : exists q, l = drop_last_blank l ++ q /\ (length q <= 1)%nat.
+Proof.
+  unfold drop_last_blank. destruct (rev l) as [|x r] eqn:E.
+  - apply (f_equal (@rev byte)) in E. rewrite rev_involutive in E. cbn in E. subst. exists []. split; [reflexivity|cbn; lia].
+  - destruct ((code x =? 32) || (code x =? 9)).
+    + exists [x]. split; [|cbn; lia]. apply (f_equal (@rev byte)) in E. rewrite rev_involutive in E. cbn [rev] in E. exact E.
+    + exists []. split; [rewrite app_nil_r; reflexivity|cbn; lia].
+Qed.
